@@ -58,7 +58,29 @@ const FAMILIES: &[&[&[&str]]] = &[
     &[&["an", "ice"], &["a", "nice"], &["anice"]],
     &[&["my", "heart"], &["myheart"], &["Myhe", "Art"]],
     &[&["the", "me"], &["theme"], &["Th", "Eme"]],
+    // one name is the other plus further words
+    &[&["Papa", "Bear"], &["Papa", "Bear", "Junior"], &["Papa", "Bear", "Junior", "Junior"], &["Papa", "Bea"]],
+    &[&["Black", "Sabbath"], &["Black", "Sabbath", "Vol"], &["Black", "Sab"]],
 ];
+
+/// a name from the families only (adversarial naming: every name of a program close to another one)
+pub fn adversarial(t: &mut Tape) -> Name {
+    family_member(t)
+}
+
+/// `n` pairwise distinct names drawn from the families as far as they go
+pub fn distinct_adversarial(t: &mut Tape, n: usize) -> Vec<Name> {
+    let mut out: Vec<Name> = Vec::new();
+    let mut tries = 0;
+    while out.len() < n {
+        tries += 1;
+        let cand = if tries > 12 * n { fallback(out.len()) } else if tries > 6 * n { any(t) } else { family_member(t) };
+        if !out.iter().any(|o| o.key() == cand.key()) {
+            out.push(cand);
+        }
+    }
+    out
+}
 
 /// one member of a family: 1 word = simple, lower-case prefix + word = common, capitalised words = proper
 fn family_member(t: &mut Tape) -> Name {
